@@ -8,6 +8,9 @@ std::istream& read_f64_1(std::istream& s, tensor_mem_t<double, 1>& t) { return :
 std::istream& read_f64_2(std::istream& s, tensor_mem_t<double, 2>& t) { return ::nano::read(s, t); }
 std::istream& read_f64_4(std::istream& s, tensor_mem_t<double, 4>& t) { return ::nano::read(s, t); }
 std::istream& read_i64_1(std::istream& s, tensor_mem_t<int64_t, 1>& t) { return ::nano::read(s, t); }
+std::istream& read_f64_3(std::istream& s, tensor_mem_t<double, 3>& t) { return ::nano::read(s, t); }
+std::istream& read_i8_1(std::istream& s, tensor_mem_t<int8_t, 1>& t) { return ::nano::read(s, t); }
+std::istream& read_i8_3(std::istream& s, tensor_mem_t<int8_t, 3>& t) { return ::nano::read(s, t); }
 std::ostream& write_f64_1(std::ostream& s, const tensor_mem_t<double, 1>& t) { return ::nano::write(s, t); }
 std::ostream& write_f64_2(std::ostream& s, const tensor_mem_t<double, 2>& t) { return ::nano::write(s, t); }
 std::ostream& write_f64_4(std::ostream& s, const tensor_mem_t<double, 4>& t) { return ::nano::write(s, t); }
